@@ -81,6 +81,10 @@ class Ctx:
 # ---------------------------------------------------------------------------------------------
 # TLC
 
+import threading  # noqa: E402
+_TLC_LOCK = threading.Lock()
+_TLC_SEQ = [0]
+
 _PRINT_RE = re.compile(r'^<<"(VERIF_[A-Z_]+)", (.*)>>\s*$')
 
 
@@ -123,7 +127,9 @@ class TlcResult:
 def run_tlc(ctx, spec, cfg, workers=8, simulate=None, depth=None, extra_env=None, timeout=900,
             coverage=False, deadlock=None, seed=None, quiet_ok=False, tool_opts=None):
     """Run TLC on spec/<spec>.tla with spec/<cfg>.cfg inside a scratch copy of the spec tree."""
-    d = os.path.join(ctx.work, "tlc-%d" % len(os.listdir(ctx.work)))
+    with _TLC_LOCK:
+        _TLC_SEQ[0] += 1
+        d = os.path.join(ctx.work, "tlc-%d-%d" % (os.getpid(), _TLC_SEQ[0]))
     os.makedirs(d)
     for f in os.listdir(SPEC):
         if f.endswith(".tla") or f.endswith(".cfg"):
